@@ -195,6 +195,11 @@ Definition remap_at (R : remapper) (m : meth) (this : str) (v : refval) : res re
       match map_field R this n d with Ok (n', d') => Ok (VDecl n' d') | Err => Err end
   | (MDeclName DMethod | MDeclDesc DMethod), VDecl n d =>
       match map_method R this n d with Ok (n', d') => Ok (VDecl n' d') | Err => Err end
+  | (MDeclName DRecord | MDeclDesc DRecord), VDecl n d =>
+      (* FieldName::try_from(record component name)?: JVMS 4.7.30 wants an unqualified name there *)
+      if C18.Model.is_valid_unqualified_name n
+      then match map_field R this n d with Ok (n', d') => Ok (VDecl n' d') | Err => Err end
+      else Err
   | (MEnclClass | MEnclMethod), VEncl c mm =>
       match remap_enclosing R c mm with Ok (c', m') => Ok (VEncl c' m') | Err => Err end
   | MEnumConst, VEnumC t c =>
